@@ -255,6 +255,11 @@ def main_check(prop_id, modname, argv):
 
     # 2-4 corpus, generated cases, monitors ------------------------------------------------
     plan = mod.plan(tier)
+    if tier == 'thorough':
+        # the thorough tier multiplies every stream's case count (default 32; a module may set THOROUGH_SCALE;
+        # VERIF_THOROUGH_SCALE overrides): conversions are cheap, so depth is bought with cases
+        scale = float(os.environ.get('VERIF_THOROUGH_SCALE', getattr(mod, 'THOROUGH_SCALE', 32)))
+        plan = [(st, (n if n <= 1 else max(1, int(n * scale))), prm) for st, n, prm in plan]
     results = run_streams(modname, plan, seed, args.workers)
     failures = [f for r in results for f in r['failures']]
     violations = [f for f in failures if f['kind'] == 'violation']
